@@ -712,6 +712,22 @@ class FuncVisitor(ast.NodeVisitor):
                 if r and t not in ("int", "float", "str", "bool", "tuple", "bytes") and not _is_scalar_expr(n.value):
                     fi.stores.append(Store(frozenset(r), f"{ast.unparse(n.target)} {type(n.op).__name__}= ... (in place through an alias)", "", n.lineno, "aug-inplace"))
                     self._global_write_check(r, ast.unparse(n)[:60], n.lineno)
+        if isinstance(n, ast.Return) and n.value is not None and not isinstance(n.value, (ast.Constant, ast.Compare, ast.JoinedStr)):
+            # a function that hands out a MUTABLE module-level object (or something reachable through one) leaks process
+            # state into its callers: a caller that edits what it was handed (a store through a parameter, far away) edits
+            # every later caller's answer. regions() already drops immutable module constants. Scalars read out of a global
+            # (a str / int / bool / enum member / None by annotation or by expression shape) are not objects to edit.
+            try:
+                rs, re_ = self.regions(n.value)
+                if isinstance(n.value, (ast.Tuple, ast.List, ast.Dict, ast.Set)):
+                    rs = rs | re_  # a fresh tuple / list holding the object hands the object out all the same
+                gs = sorted({r[1] for r in rs if r[0] == "global"})
+            except Exception:  # noqa: BLE001
+                gs = []
+            if gs and self.type_of(n.value) not in ("int", "float", "str", "bool", "bytes", "Path", "frozenset") and not _is_scalar_expr(n.value):
+                ret = ast.unparse(self.fi.node.returns) if self.fi.node.returns is not None else ""
+                if not _immutable_annotation(ret):
+                    self.fi.effects.append(Effect("global_escape", f"returns (part of) the mutable module-level object {', '.join(gs)}: `{ast.unparse(n.value)[:60]}`", n.lineno))
         if isinstance(n, ast.Delete):
             for t in n.targets:
                 self._store(t, n.lineno, kind="del")
